@@ -57,8 +57,16 @@ func closeOnce(ch chan struct{}) {
 }
 
 type c33Handler struct {
-	ctl    sync.Map // key string -> *c33Ctl
-	census handlerCensus
+	ctl      sync.Map // key string -> *c33Ctl
+	census   handlerCensus
+	progress chan struct{} // poked (non-blocking) whenever a handler made progress
+}
+
+func poke(ch chan struct{}) {
+	select {
+	case ch <- struct{}{}:
+	default:
+	}
 }
 
 func (h *c33Handler) ServeHTTP(w bfe_http.ResponseWriter, req *bfe_http.Request) {
@@ -71,6 +79,7 @@ func (h *c33Handler) ServeHTTP(w bfe_http.ResponseWriter, req *bfe_http.Request)
 		return
 	}
 	c := v.(*c33Ctl)
+	defer poke(h.progress)
 	defer close(c.done)
 	cn := w.(bfe_http.CloseNotifier).CloseNotify()
 	select {
@@ -88,6 +97,7 @@ func (h *c33Handler) ServeHTTP(w bfe_http.ResponseWriter, req *bfe_http.Request)
 			}
 			n, err := req.Body.Read(b)
 			atomic.AddInt64(&c.read, int64(n))
+			poke(h.progress)
 			if err != nil {
 				c.readErr.Store(err.Error())
 				return
@@ -103,6 +113,7 @@ func (h *c33Handler) ServeHTTP(w bfe_http.ResponseWriter, req *bfe_http.Request)
 		readUntil(c.ReadN)
 		req.Body.Close()
 		close(c.bodyClosed)
+		poke(h.progress)
 		select {
 		case <-c.fin:
 		case <-cn:
@@ -223,19 +234,19 @@ var c33Reported sync.Map // signature -> true (witness built only once)
 // c33RunCase executes one connection. All oracles live here.
 func c33RunCase(r *vkit.Run, cs *c33Case, report bool) (res c33Result) {
 	res.stallAt = -1
-	h := &c33Handler{}
-	if os.Getenv("VH2_DEBUG") != "" {
-		defer func() {
-			// runs before the cleanup defer below is registered? no: registered first, so it runs last
-		}()
-	}
+	h := &c33Handler{progress: make(chan struct{}, 1)}
 	srv := &bfe_http2.Server{MaxUploadBufferPerStream: cs.StreamWin}
 	tc := dialPipe(srv, h)
 	win := newC33Win()
-	tc.cli.OnEvent = win.onEvent
+	tc.cli.OnEvent = func(e *h2cli.Event) {
+		win.onEvent(e)
+		if e.Type != http2.FrameWindowUpdate && e.Type != http2.FramePing {
+			poke(h.progress)
+		}
+	}
 	ctls := make([]*c33Ctl, len(cs.Streams))
 	sentData := make([]int64, len(cs.Streams)) // DATA payload octets (without padding) written so far, per stream
-	st8 := &c33State{cs: cs, ctls: ctls, win: win, sentData: sentData}
+	st8 := &c33State{cs: cs, ctls: ctls, win: win, sentData: sentData, progress: h.progress}
 	defer func() {
 		for _, c := range ctls {
 			if c != nil {
@@ -678,17 +689,28 @@ type c33State struct {
 	ctls     []*c33Ctl
 	win      *c33Win
 	sentData []int64
+	progress chan struct{}
 }
 
 // waitConsumed waits (polling; not an oracle) until allConsumed holds; false
 // if it did not settle within the safety bound.
 func (s *c33State) waitConsumed() bool {
 	dl := time.Now().Add(20 * time.Second)
+	var t *time.Timer
 	for !s.allConsumed() {
 		if time.Now().After(dl) {
 			return false
 		}
-		time.Sleep(200 * time.Microsecond)
+		if t == nil {
+			t = time.NewTimer(5 * time.Millisecond)
+			defer t.Stop()
+		} else {
+			t.Reset(5 * time.Millisecond)
+		}
+		select {
+		case <-s.progress:
+		case <-t.C:
+		}
 	}
 	return true
 }
@@ -825,7 +847,7 @@ func c33Gen(r *vkit.Run, i int) *c33Case {
 	cs.ClientSet = g.Chance(1, 4)
 	classes := []string{"clean", "clean", "clean", "early-return", "client-rst", "body-close", "beyond-content-length", "excess", "excess"}
 	cs.Class = classes[g.Intn(len(classes))]
-	n := g.Range(1, 8)
+	n := g.Range(1, 6)
 	risky := func() c33Stream {
 		// keep the stream's total within one stream window and a fraction of the conn window so the
 		// script never needs an update for it
@@ -1003,7 +1025,7 @@ func c33(r *vkit.Run) {
 		r.SetMinDistinct(0)
 		return
 	}
-	n := envN(r.N(1400, 24000))
+	n := envN(r.N(640, 12000))
 	for phase := 0; phase < 2; phase++ {
 		large := phase == 1
 		bfe_http2.VerifSetLargeConnRecvWindow(large)
@@ -1011,7 +1033,7 @@ func c33(r *vkit.Run) {
 		if large {
 			cnt = n / 4
 		}
-		vkit.Parallel(cnt, 48, func(i int) {
+		vkit.Parallel(cnt, 32, func(i int) {
 			idx := i
 			if large {
 				idx += 10000000
